@@ -872,6 +872,9 @@ class Builder:
 
         # if self._mem_mgr.is_register_active(loop_register):
         #     raise ValueError("Register used for looping should not already be active")
+        if activate and not self._mem_mgr.is_register_active(loop_register):
+            # Reserve the register, just like an automatically chosen one.
+            self._mem_mgr.add_active_register(loop_register)
         return loop_register
 
     def _loop_get_entry_commands(
